@@ -24,3 +24,8 @@ use block_builder::BlockBuilder;
 
 mod filter_block_builder;
 use filter_block_builder::FilterBlockBuilder;
+
+#[cfg(raindb_verif)]
+pub(crate) use filter_block::FilterBlockReader as VerifFilterBlockReader;
+#[cfg(raindb_verif)]
+pub(crate) use filter_block_builder::FilterBlockBuilder as VerifFilterBlockBuilder;
